@@ -5,7 +5,13 @@ package main
 // property quantifies over.
 
 import (
+	"encoding/json"
+	"fmt"
+	"math"
 	"strings"
+
+	"github.com/glowlabs-org/gca-backend/glow"
+	"verifh/ev"
 
 	"verifh/pool"
 )
@@ -65,10 +71,14 @@ func authFilter(init []string, ops []string) func(hist []string) []string {
 	}
 }
 
-func runOpsCheck(prop, tier string, arg opsArg, ops []string, depth int, rule string) int {
+func runOpsCheck(prop, tier string, arg opsArg, ops []string, depth int, rule string, extra ...func(run *ev.Run, p *pool.Pool) (evals int)) int {
 	run := newRun(prop, tier, "model_checking")
 	p := pool.New(0)
 	st := bfsPool(run, p, "ops", arg, depth, 0, authFilter(arg.Init, ops))
+	for _, f := range extra {
+		n := f(run, p)
+		st.Transitions += n
+	}
 	finishBfs(run, st, rule)
 	run.Coverage["alphabet"] = ops
 	run.Coverage["init"] = arg.Init
@@ -99,7 +109,7 @@ func init() {
 		if tier == "thorough" {
 			depth = 6
 		}
-		return runOpsCheck("C06", tier, arg, ops, depth, "BFS over histories of authorizations (valid, duplicate, conflicting in capacity / key / reusing another device's key, flipped bit, temp-key / server-key / foreign-GCA signatures), reports, rotation and restart on the real server through the JSON endpoint; every transition compared with the reference model (status code, device set, bans, slots, public-key index consistency); every distinct state additionally through /equipment, recent-reports, TCP sync, statistics, archive and a restart;restart differential")
+		return runOpsCheck("C06", tier, arg, ops, depth, "BFS over histories of authorizations (valid, duplicate, conflicting in capacity / key / reusing another device's key, flipped bit, stale signature, temp-key / server-key / foreign-GCA signatures), reports, rotation and restart on the real server through the JSON endpoint; every transition compared with the reference model (status code, device set, bans, slots, public-key index consistency); every distinct state additionally through /equipment, recent-reports, TCP sync, statistics, archive and a restart;restart differential; plus, for every field of an authorization (and for +0/-0, subnormal and 1-ulp differences of latitude and longitude), base authorization, identical resubmission, and a validly signed second authorization differing in that field only", c06Fields)
 	}
 	checks["C07"] = func(tier string) int { return c07(tier) }
 	checks["C04"] = func(tier string) int {
@@ -131,4 +141,140 @@ func init() {
 		}
 		return runOpsCheck("C03", tier, arg, ops, depth, "BFS over histories of reports at window edges (slots 0,1,2015,2016,2017,3200,3201,4031 relative to the offset), clock moves (incl. three weeks ahead), rotation-loop ticks (the real loop decides), forced rotations, impact rounds, restarts (with start-up catch-up), authorizations and bans, statistics requests with insert_false_negatives (random source answering 'always negate'), future and misaligned weeks; every distinct state: every archived week on disk and through the API equals the model (values, impact rates, contiguous offsets, signature over the independently encoded layout, byte-identical to its first appearance, also after a false-negatives request and after restart;restart), live weeks equal the model")
 	}
+}
+
+// ---- single-field conflicts ----
+
+type c06FieldJob struct {
+	Field string `json:"field"`
+}
+
+var c06FieldNames = []string{"PublicKey", "Latitude+ulp", "Longitude+ulp", "Latitude+0/-0", "Longitude+0/-0", "Latitude-subnormal", "Capacity", "Debt", "Expiration", "Initialization", "ProtocolFee", "Capacity-high-bit", "Expiration-high-bit"}
+
+func c06FieldRun(j c06FieldJob) *jobReport {
+	rep := &jobReport{Reasons: map[string]int{}}
+	w, err := newStdWorld("c06f")
+	if err != nil {
+		rep.fail("harness/setup", err.Error())
+		return rep
+	}
+	poisoned := false
+	defer func() {
+		if poisoned {
+			w.Abandon()
+			return
+		}
+		if p := safely(func() { w.Close() }); p != "" {
+			rep.fail("close-panic", firstLine(p))
+		}
+		w.Cleanup()
+	}()
+	base := authFor(20, key("k20"), 1000)
+	other := base
+	switch j.Field {
+	case "PublicKey":
+		other.PublicKey = key("k21").Pub
+	case "Latitude+ulp":
+		other.Latitude = math.Nextafter(base.Latitude, 100)
+	case "Longitude+ulp":
+		other.Longitude = math.Nextafter(base.Longitude, 100)
+	case "Latitude+0/-0":
+		base.Latitude, other.Latitude = 0, math.Copysign(0, -1)
+	case "Longitude+0/-0":
+		base.Longitude, other.Longitude = math.Copysign(0, -1), 0
+	case "Latitude-subnormal":
+		base.Latitude, other.Latitude = 0, math.SmallestNonzeroFloat64
+	case "Capacity":
+		other.Capacity++
+	case "Debt":
+		other.Debt++
+	case "Expiration":
+		other.Expiration++
+	case "Initialization":
+		other.Initialization++
+	case "ProtocolFee":
+		other.ProtocolFee++
+	case "Capacity-high-bit":
+		other.Capacity |= 1 << 63
+	case "Expiration-high-bit":
+		other.Expiration |= 1 << 31
+	}
+	step := func(name string, ea glow.EquipmentAuthorization, wantCode int, wantOut authOutcome) bool {
+		var code int
+		var out authOutcome
+		if p := safely(func() { code, out = w.doAuthorize(w.signAuth(ea, w.GCA.Priv)) }); p != "" {
+			rep.fail("panic/authorize/"+name, firstLine(p))
+			poisoned = true
+			return false
+		}
+		rep.Evals++
+		if out != wantOut {
+			rep.fail("harness/model-outcome", fmt.Sprint(name, out))
+			return false
+		}
+		if code != wantCode {
+			rep.fail("single-field-conflict/"+name+"/field="+j.Field, map[string]interface{}{"status": code, "expected": wantCode})
+			return false
+		}
+		if sig, what := w.compareState(); sig != "" {
+			rep.fail("single-field-conflict/"+name+"/field="+j.Field+"/"+sig, what)
+			return false
+		}
+		return true
+	}
+	if !step("first", base, 200, authAdded) || !step("identical-resubmission", base, 200, authDuplicate) || !step("second-differs-in-one-field", other, 500, authConflictBan) {
+		return rep
+	}
+	// banned for good: also the original is refused now, and after a restart
+	if !step("original-after-ban", base, 500, authRefused) {
+		return rep
+	}
+	if err := w.Restart(); err != nil {
+		rep.fail("restart-fails/field="+j.Field, err.Error())
+		poisoned = true
+		return rep
+	}
+	if sig, what := w.compareState(); sig != "" {
+		rep.fail("single-field-conflict/after-restart/field="+j.Field+"/"+sig, what)
+	}
+	rep.Reasons["field "+j.Field]++
+	rep.Accepted++
+	return rep
+}
+
+func c06Fields(run *ev.Run, p *pool.Pool) int {
+	var jobs []interface{}
+	for _, f := range c06FieldNames {
+		jobs = append(jobs, c06FieldJob{f})
+	}
+	evals := 0
+	for i, r := range p.Map("c06f", jobs, nil) {
+		var rep jobReport
+		if r.Err != "" || r.Panic != "" || r.Timeout || json.Unmarshal(r.Data, &rep) != nil {
+			fmt.Println("HARNESS ERROR: c06 field job", i, r.Err, firstLine(r.Panic), r.Timeout)
+			run.Count("harness_errors", 1)
+			continue
+		}
+		evals += rep.Evals
+		for _, v := range rep.Violations {
+			if strings.HasPrefix(v.Sig, "harness/") {
+				fmt.Println("HARNESS ERROR:", v.Sig, v.Detail)
+				run.Count("harness_errors", 1)
+				continue
+			}
+			run.Violation(v.Sig, map[string]interface{}{"job": jobs[i], "detail": v.Detail, "replay": mkReplay("c06f", jobs[i])})
+		}
+	}
+	run.Coverage["single_field_conflicts"] = c06FieldNames
+	return evals
+}
+
+func init() {
+	pool.Register("c06f", func(data json.RawMessage) (interface{}, error) {
+		var j c06FieldJob
+		if err := json.Unmarshal(data, &j); err != nil {
+			return nil, err
+		}
+		return c06FieldRun(j), nil
+	})
 }
